@@ -2,10 +2,15 @@
 
 from __future__ import annotations
 
+import array
 import asyncio
+import collections.abc
+import enum
 import inspect
 import random
+import typing
 from abc import ABC
+from collections import UserList, deque
 from typing import Any
 
 from vf import gen_uds
@@ -20,7 +25,9 @@ TECHNIQUE = (
     "parse_dynamic, UDSClient method bytes) on generated boundary/random parameters; icontract postcondition on the real "
     "uds_memory_parameters; second use: pairs of cases of one kind - two live objects, every public field of a constructed / "
     "parsed object re-assigned to the other case's values (and back), UDSClient.request bytes of the re-used object, a second "
-    "parse of the same bytes after the first result was edited"
+    "parse of the same bytes after the first result was edited; argument spelling: every parameter a constructor / UDSClient "
+    "method documents as int | Sequence[int] (found from the signatures at run time) handed over in every other spelling of the "
+    "same values (tuple, range, deque, UserList, array, user-defined Sequence, list/tuple/int subclasses, IntEnum member)"
 )
 LEVEL_TEXT = (
     "Exploration: every concrete public request class found at run time in gallia.services.uds.core.service is constructed "
@@ -30,6 +37,9 @@ LEVEL_TEXT = (
     "alive at once, all public fields of the first object (constructed, from_pdu, parse_dynamic) re-assigned to the second "
     "case's values and back, the bytes of the first case parsed again after the first parse result was edited; memory requests "
     "additionally with single-field re-assignments that keep the widths of the object's ALFID, for all 225 ALFIDs. "
+    "Every valid case (and three spellings of every refused case) of a kind with int | Sequence[int] parameters is repeated with "
+    "those arguments in ten other spellings of the same values, one or several parameters at a time, plus blocks of consecutive "
+    "identifiers / memory regions (1..300 groups) whose natural spelling is a range; the client methods of these kinds likewise. "
     "Held = held on those cases, not for all parameters."
 )
 LEVEL_NOTE = "Trusted: the layout table in vf/iso14229.py (appendix A of DESIGN.md) and the constructor-argument mapping in vf/gen_uds.py."
@@ -38,7 +48,8 @@ RULE = (
     "integer field, both suppress-bit settings, all 225 ALFID width pairs, 0..n repeated groups, records of length "
     "0/1/2/255/4093, seeded random fill; plus single-parameter-out-of-range cases; non-trivial = every case except RawRequest; "
     "distinct = distinct (class, arguments); re-use cases = (case, next case of the same kind): field values of a request are "
-    "its public attributes at the time of .pdu, a parse result depends on the bytes only"
+    "its public attributes at the time of .pdu, a parse result depends on the bytes only; spelling cases = (case, parameter -> "
+    "container / int type): a request is determined by the values of its arguments, not by the Sequence / int type carrying them"
 )
 ASSUMPTIONS = [
     "reference layouts transcribed from ISO 14229-1 (DESIGN.md appendix A)",
@@ -48,6 +59,9 @@ ASSUMPTIONS = [
     "re-assignment: only complete re-assignments to another in-range case of the same class (incl. its ALFID field) and single-field "
     "re-assignments within the widths of the object's ALFID field are judged; a single new value that no longer fits the ALFID "
     "chosen at construction, and out-of-range values assigned after construction, have no outcome prescribed by the statement",
+    "a parameter annotated int | Sequence[int] accepts every collections.abc.Sequence (nominal: subclass or registered) of in-range ints and every "
+    "instance of int; str / bytes are not Sequences of int and are not tried; after construction a list-valued field may be held in any Sequence "
+    "with the same elements",
 ]
 EXHAUSTIVE = {"quick": False, "thorough": False}
 EXHAUSTIVE_NOTE = "exhaustive sub-spaces: all 128x2 sub-function bytes of the 2-byte requests, all 225 ALFID width pairs per memory request kind"
@@ -122,6 +136,18 @@ def required_reach(tier: str) -> dict[str, int]:
         "reparse.after_edit.dynamic": 1000,
         "reparse.after_edit.raw": 20,
         "reparse.after_edit.generic": 20,
+        # the same values in another documented spelling of an `int | Sequence[int]` parameter
+        "spelling.kinds": 3,
+        "spelling.client_methods": 3,
+        "spelling.variants": 20000,
+        **{f"spelling.as.{how}": 3000 for how in CONTAINERS},
+        **{f"spelling.as.{how}": 500 for how in SCALARS},
+        "spelling.range_of_several": 800,
+        "spelling.scalar_in_container": 3000,
+        "spelling.several_parameters": 5000,
+        "spelling.block_cases": 300,
+        "spelling.client": 300,
+        "spelling.invalid": 3000,
     }
 
 
@@ -195,6 +221,173 @@ def assign_fields(o: Any, old: dict[str, Any], new: dict[str, Any], singular: bo
     return used
 
 
+# -- spellings of one argument ----------------------------------------------------------------------
+# A parameter documented as `int | Sequence[int]` takes every collections.abc.Sequence of in-range integers (and every int,
+# not only exact `int` objects).  The same values in another documented container are the same request.
+class IdTable(collections.abc.Sequence):  # type: ignore[type-arg]
+    """a user-defined read-only Sequence[int]"""
+
+    def __init__(self, items: Any) -> None:
+        self._items = tuple(items)
+
+    def __getitem__(self, i: Any) -> Any:
+        return self._items[i]
+
+    def __len__(self) -> int:
+        return len(self._items)
+
+    def __repr__(self) -> str:
+        return f"IdTable({list(self._items)!r})"
+
+
+class ListSub(list):  # type: ignore[type-arg]
+    pass
+
+
+class TupleSub(tuple):  # type: ignore[type-arg]
+    pass
+
+
+class IntSub(int):
+    pass
+
+
+_ENUMS: dict[int, Any] = {}
+
+
+def as_int_enum(v: int) -> Any:
+    if v not in _ENUMS:
+        if len(_ENUMS) > 4096:
+            _ENUMS.clear()
+        _ENUMS[v] = enum.IntEnum("Identifier", {"Member": v}).Member  # type: ignore[attr-defined]
+    return _ENUMS[v]
+
+
+def as_range(items: list[int]) -> Any:
+    """the range with exactly these elements, if they are an arithmetic progression"""
+    if not items:
+        return range(0)
+    if len(items) == 1:
+        return range(items[0], items[0] + 1)
+    step = items[1] - items[0]
+    if step == 0:
+        return None
+    r = range(items[0], items[-1] + (1 if step > 0 else -1), step)
+    return r if len(r) == len(items) and list(r) == items else None
+
+
+def as_array(items: list[int]) -> Any:
+    if all(0 <= v <= 0xFFFF for v in items):
+        return array.array("H", items)
+    if all(0 <= v < 2**64 for v in items):
+        return array.array("Q", items)
+    return None
+
+
+CONTAINERS: dict[str, Any] = {
+    "tuple": tuple,
+    "range": as_range,
+    "deque": deque,
+    "UserList": UserList,
+    "user_sequence": IdTable,
+    "list_subclass": ListSub,
+    "tuple_subclass": TupleSub,
+    "array": as_array,
+}
+SCALARS: dict[str, Any] = {"int_subclass": IntSub, "int_enum": as_int_enum}
+SPELLINGS = list(CONTAINERS) + list(SCALARS)
+
+
+def documents_int_sequence(ann: Any) -> bool:
+    if isinstance(ann, str):
+        return "Sequence[int]" in ann.replace("collections.abc.", "").replace("typing.", "")
+    for a in (ann, *typing.get_args(ann)):
+        if typing.get_origin(a) is collections.abc.Sequence and typing.get_args(a) == (int,):
+            return True
+    return False
+
+
+_PARAMS: dict[Any, tuple[list[str], list[str]]] = {}
+
+
+def int_sequence_params(fn: Any) -> tuple[list[str], list[str]]:
+    """(names of the parameters of `fn` after self, those among them documented as a Sequence[int])"""
+    if fn not in _PARAMS:
+        try:
+            ps = list(inspect.signature(fn).parameters.values())[1:]
+        except (TypeError, ValueError):
+            ps = []
+        ps = [p for p in ps if p.kind in (p.POSITIONAL_ONLY, p.POSITIONAL_OR_KEYWORD, p.KEYWORD_ONLY)]
+        _PARAMS[fn] = ([p.name for p in ps], [p.name for p in ps if documents_int_sequence(p.annotation)])
+    return _PARAMS[fn]
+
+
+def spell(value: Any, how: str) -> Any:
+    """`value` (an int or a list of ints, as the generators write it) in the spelling `how`; None if there is no such spelling"""
+    if how in SCALARS:
+        return SCALARS[how](value) if type(value) is int else None
+    if type(value) is int:
+        value = [value]
+    if type(value) is not list or not all(type(v) is int for v in value):
+        return None
+    return CONTAINERS[how](value)
+
+
+def apply_spelling(names: list[str], args: tuple[Any, ...], kwargs: dict[str, Any], plan: dict[str, str]) -> tuple[tuple[Any, ...], dict[str, Any], dict[str, str]]:
+    """-> (args, kwargs, the part of the plan that could be applied) with the planned arguments re-spelled"""
+    a2, k2, applied = list(args), dict(kwargs), {}
+    for name, how in plan.items():
+        if name in k2:
+            v = spell(k2[name], how)
+            if v is not None:
+                k2[name], applied[name] = v, how
+        elif name in names and names.index(name) < len(a2):
+            v = spell(a2[names.index(name)], how)
+            if v is not None:
+                a2[names.index(name)], applied[name] = v, how
+    return tuple(a2), k2, applied
+
+
+def block_cases(kind: str, rng: random.Random) -> list[Case]:
+    """groups that follow each other in the identifier / address space (a block of identifiers, consecutive memory regions):
+    the values of which a range is the natural spelling"""
+    spr = rng.random() < 0.5
+    if kind == "ReadDataByIdentifierRequest":
+        n, step = rng.choice([1, 2, 3, 4, 8, 40, 300]), rng.choice([1, 1, 1, 2, 0x10, -1, -3])
+        span = abs(step) * (n - 1)
+        lo = min(rng.choice([0, 0xF190, 0xFFFF, rng.randint(0, 0xFFFF)]), 0xFFFF - span)
+        dids = list(range(lo, lo + span + 1, abs(step)))[:: 1 if step > 0 else -1]
+        return [Case(kind, (dids,), {}, iso.req_rdbi(dids), {"data_identifiers": dids})]
+    if kind == "DefineByIdentifierRequest":
+        n, step = rng.choice([1, 2, 3, 8, 20, 60]), rng.choice([1, 1, 2, 0x100, -1])
+        span = abs(step) * (n - 1)
+        lo = min(rng.choice([0, 0xF190, 0xFFFF, rng.randint(0, 0xFFFF)]), 0xFFFF - span)
+        srcs = list(range(lo, lo + span + 1, abs(step)))[:: 1 if step > 0 else -1]
+        p0 = rng.randint(1, 0xFF - n + 1)
+        pos = list(range(p0, p0 + n))
+        sizes = rng.choice([list(range(n, 0, -1)), list(range(0xFF - n + 1, 0x100)), [rng.randint(1, 0xFF)] * n])
+        d = gen_uds.rnd_did(rng)
+        exp = iso.req_dddi_by_id(d, list(zip(srcs, pos, sizes)), spr)
+        return [Case(kind, (d, srcs, pos, sizes, spr), {}, exp, {"dynamically_defined_data_identifier": d, "source_data_identifiers": srcs,
+                                                                  "positions_in_source_data_record": pos, "memory_sizes": sizes, "suppress_response": spr})]
+    if kind == "DefineByMemoryAddressRequest":
+        n, aw, sw = rng.choice([1, 2, 3, 8, 20]), rng.randint(1, 15), rng.randint(1, 15)
+        stride = rng.choice([1, 4, 0x100, 0x1000])
+        stride = stride if stride * n < 256**aw else 1
+        base = rng.choice([0, 256**aw - stride * n, rng.randrange(256**aw - stride * n + 1)])
+        addrs = list(range(base, base + stride * n, stride))
+        if rng.random() < 0.3:
+            addrs.reverse()
+        sizes = rng.choice([[stride] * n, list(range(1, n + 1)), list(range(n, 0, -1))])
+        sizes = [z if z < 256**sw else 1 for z in sizes]
+        f = None if rng.random() < 0.5 else iso.alfid_byte(aw, sw)
+        d = gen_uds.rnd_did(rng)
+        exp = iso.req_dddi_by_mem(d, list(zip(addrs, sizes)), f, spr)
+        return [Case(kind, (d, addrs, sizes, f, spr), {}, exp, {"dynamically_defined_data_identifier": d, "memory_addresses": addrs, "memory_sizes": sizes,
+                                                                "address_and_length_format_identifier": exp[4], "suppress_response": spr})]
+    return []
+
+
 class Monitor:
     def __init__(self, ctx: Any):
         self.ctx = ctx
@@ -202,6 +395,11 @@ class Monitor:
         self.reuse_kinds: set[str] = set()
         # own stream for the decisions of the re-use family, so that the generated cases stay those of the seed
         self.rng2 = random.Random(f"C01-reuse/{getattr(ctx, 'seed', 0)}/{getattr(ctx, 'shard_index', 0)}")
+        # and one for the spellings of container-valued arguments
+        self.rng3 = random.Random(f"C01-spelling/{getattr(ctx, 'seed', 0)}/{getattr(ctx, 'shard_index', 0)}")
+        self.spelled_kinds: set[str] = set()
+        self.spelled_methods: set[str] = set()
+        self.client_turn = 0
         self.install_contract()
 
     def install_contract(self) -> None:
@@ -330,6 +528,124 @@ class Monitor:
             ctx.reach("invalid.refused")
             return
         ctx.violation(f"{c.cls}/accepts-out-of-range/{c.bad}", f"{c.cls} encodes a parameter outside its documented range ({c.bad})", {"case": c.to_json(), "got": pdu})
+
+    # -- the same request with its arguments spelled differently ------------------------------------
+    def spelling_plan(self, mine: list[str], primary_how: str) -> dict[str, str]:
+        primary = self.rng3.choice(mine)
+        plan = {primary: primary_how}
+        if len(mine) > 1 and self.rng3.random() < 0.5:
+            for p in mine:
+                if p != primary:
+                    plan[p] = self.rng3.choice(SPELLINGS)
+        return plan
+
+    def note_spelling(self, applied: dict[str, str], args: tuple[Any, ...], kwargs: dict[str, Any], names: list[str], orig: tuple[Any, ...]) -> None:
+        ctx = self.ctx
+        ctx.reach("spelling.variants")
+        if len(applied) > 1:
+            ctx.reach("spelling.several_parameters")
+        for name, how in applied.items():
+            ctx.reach(f"spelling.as.{how}")
+            i = names.index(name)
+            was = orig[i] if i < len(orig) else None
+            if how in CONTAINERS and type(was) is int:
+                ctx.reach("spelling.scalar_in_container")
+            if how == "range" and isinstance(was, list) and len(was) >= 2:
+                ctx.reach("spelling.range_of_several")
+
+    def check_spellings(self, kinds: dict[str, type], c: Case, plans: list[dict[str, str]] | None = None) -> None:
+        """The arguments of case `c` that its constructor documents as `int | Sequence[int]` are handed over in every other
+        spelling of the same values (tuple, range, deque, UserList, array, a user-defined Sequence, subclasses of list / tuple /
+        int, an IntEnum member).  The request is the same one: same bytes, same field values; an out-of-range case stays refused."""
+        ctx = self.ctx
+        cls = kinds[c.cls]
+        names, seqs = int_sequence_params(cls.__init__)
+        if not seqs:
+            return
+        given = {**dict(zip(names, c.args)), **c.kwargs}
+        mine = [p for p in seqs if type(given.get(p)) in (int, list)]
+        if not mine:
+            return
+        if c.expect is not None:
+            try:
+                if cls(*c.args, **c.kwargs).pdu != c.expect:
+                    return  # already wrong as the generator spells it: check_valid reports that
+            except Exception:
+                return
+        self.spelled_kinds.add(c.cls)
+        if plans is None:
+            # a refusal is judged in three of the spellings, a valid case in all of them
+            plans = [self.spelling_plan(mine, how) for how in (SPELLINGS if c.expect is not None else self.rng3.sample(SPELLINGS, 3))]
+            primary_first = True
+        else:
+            primary_first = False
+        for plan in plans:
+            args, kwargs, applied = apply_spelling(names, c.args, c.kwargs, plan)
+            if not applied or (primary_first and next(iter(plan)) not in applied):
+                continue
+            w = {"case": c.to_json(), "spelling": applied, "spelled_args": repr(args)[:400]}
+            ctx.case(("spelling", c.ident(), tuple(sorted(applied.items()))))
+            self.note_spelling(applied, args, kwargs, names, c.args)
+            if c.expect is None:
+                ctx.reach("spelling.invalid")
+                try:
+                    pdu = cls(*args, **kwargs).pdu
+                except Exception:
+                    ctx.reach("invalid.refused")
+                    continue
+                ctx.violation(f"{c.cls}/argument-spelling/accepts-out-of-range/{c.bad}", f"{c.cls} encodes a parameter outside its documented range ({c.bad}) when the "
+                              "argument comes in another documented container", {**w, "got": pdu})
+                continue
+            try:
+                obj = cls(*args, **kwargs)
+            except Exception as e:
+                ctx.violation(f"{c.cls}/argument-spelling/construct-raises/{type(e).__name__}", f"constructing {c.cls} raises for in-range values handed over in another "
+                              "documented spelling (Sequence[int] other than list, int other than exact int)", {**w, "error": repr(e)})
+                continue
+            try:
+                pdu = obj.pdu
+            except Exception as e:
+                ctx.violation(f"{c.cls}/argument-spelling/pdu-raises/{type(e).__name__}", f"{c.cls}.pdu raises for in-range values handed over in another documented spelling", {**w, "error": repr(e)})
+                continue
+            if pdu != c.expect:
+                ctx.violation(f"{c.cls}/argument-spelling/pdu-differs/{first_diff(pdu, c.expect)}", f"{c.cls}.pdu differs from the ISO layout when the same values come in another "
+                              "documented spelling", {**w, "got": pdu, "want": c.expect})
+                continue
+            for attr, val in c.fields.items():
+                got = getattr(obj, attr, "<missing>")
+                if isinstance(val, list) and isinstance(got, collections.abc.Sequence) and not isinstance(got, (str, bytes)):
+                    got = list(got)
+                if got != val:
+                    ctx.violation(f"{c.cls}/argument-spelling/attr-after-construct/{attr}", "constructed object exposes another field value when the same values come in another "
+                                  "documented spelling", {**w, "attr": attr, "got": repr(got)[:200]})
+
+    def check_client_spelling(self, method: str, c: Case, loop: Any, plan: dict[str, str] | None = None) -> None:
+        """same for the parameters the UDSClient service method documents as `int | Sequence[int]`: bytes handed to the transport"""
+        from gallia.services.uds.core.client import UDSClient
+
+        ctx = self.ctx
+        names, seqs = int_sequence_params(getattr(UDSClient, method))
+        given = {**dict(zip(names, c.args)), **c.kwargs}
+        mine = [p for p in seqs if type(given.get(p)) in (int, list)]
+        if not mine:
+            return
+        if plan is None:
+            self.client_turn += 1
+            plan = {p: SPELLINGS[(self.client_turn + i) % len(SPELLINGS)] for i, p in enumerate(mine)}
+        args, kwargs, applied = apply_spelling(names, c.args, c.kwargs, plan)
+        if not applied:
+            return
+        w = {"method": method, "case": c.to_json(), "spelling": applied, "spelled_args": repr(args)[:400]}
+        ctx.case(("client-spelling", method, c.ident(), tuple(sorted(applied.items()))))
+        self.note_spelling(applied, args, kwargs, names, c.args)
+        ctx.reach("spelling.client")
+        self.spelled_methods.add(method)
+        got = loop.run_until_complete(client_call_bytes(method, args, kwargs))
+        if isinstance(got, Exception):
+            ctx.violation(f"client/{method}/argument-spelling/raises/{type(got).__name__}", f"UDSClient.{method} raises for in-range values handed over in another documented spelling", {**w, "error": repr(got)})
+        elif got != c.expect:
+            ctx.violation(f"client/{method}/argument-spelling/bytes-differ/{first_diff(got, c.expect or b'')}", f"UDSClient.{method} puts other bytes on the wire when the same values "
+                          "come in another documented spelling", {**w, "got": got})
 
     # -- second use of a request object / second parse of the same bytes -------------------------
     def check_reuse(self, kinds: dict[str, type], a: Case, b: Case, loop: Any = None) -> None:
@@ -555,6 +871,20 @@ async def client_bytes(method: str, c: Case) -> bytes | Exception:
     return t.sent[0] if t.sent else RuntimeError("nothing sent")
 
 
+async def client_call_bytes(method: str, args: tuple[Any, ...], kwargs: dict[str, Any]) -> bytes | Exception:
+    """bytes the UDSClient service method hands to the transport for exactly these arguments"""
+    from gallia.services.uds.core.client import UDSClient
+
+    t = CaptureTransport()
+    cl = UDSClient(t, timeout=1.0)  # type: ignore[arg-type]
+    try:
+        await getattr(cl, method)(*args, **kwargs)
+    except Exception as e:
+        if not t.sent:
+            return e
+    return t.sent[0] if t.sent else RuntimeError("nothing sent")
+
+
 async def request_bytes(obj: Any) -> bytes | Exception:
     """bytes UDSClient.request() hands to the transport for an existing request object"""
     from gallia.services.uds.core.client import UDSClient
@@ -595,16 +925,24 @@ def run(ctx: Any, params: dict[str, Any]) -> None:
             for i in range(per):
                 for c in gen_uds.GEN[n](rng):
                     mon.check_valid(kinds, c)
+                    mon.check_spellings(kinds, c)
                     seen_valid = True
                     if prev is not None and i % 3 == 0:
                         mon.check_reuse(kinds, prev, c, loop)
                     prev = c
                     if rng.random() < 0.02:
                         ctx.sample({"cls": c.cls, "args": list(c.args), "expect": c.expect})
+            # blocks of consecutive identifiers / regions, in every spelling (own random stream)
+            for _ in range(max(2, per // 5)):
+                for c in block_cases(n, mon.rng3):
+                    ctx.reach("spelling.block_cases")
+                    mon.check_valid(kinds, c)
+                    mon.check_spellings(kinds, c)
             if n in gen_uds.BADGEN:
                 for _ in range(max(1, per // 10)):
                     for c in gen_uds.BADGEN[n](rng):
                         mon.check_invalid(kinds, c)
+                        mon.check_spellings(kinds, c)
                         seen_invalid = True
             if params["part"] == 0:
                 if seen_valid:
@@ -627,6 +965,7 @@ def run(ctx: Any, params: dict[str, Any]) -> None:
                     elif got != c.expect:
                         ctx.violation(f"client/{m}/bytes-differ/{first_diff(got, c.expect or b'')}", f"UDSClient.{m} puts other bytes on the wire than the service it documents", {"method": m, "case": c.to_json(), "got": got})
                     methods_seen.add(m)
+                    mon.check_client_spelling(m, c, loop)
             if ctx.out_of_time():
                 break
         # exhaustive small domains
@@ -671,6 +1010,8 @@ def run(ctx: Any, params: dict[str, Any]) -> None:
         loop.close()
     ctx.reach("client.methods_exercised", len(methods_seen) if params["part"] == 0 else 0)
     ctx.reach("reuse.kinds", len(mon.reuse_kinds) if params["part"] == 0 else 0)
+    ctx.reach("spelling.kinds", len(mon.spelled_kinds) if params["part"] == 0 else 0)
+    ctx.reach("spelling.client_methods", len(mon.spelled_methods) if params["part"] == 0 else 0)
     ctx.reach("contract.uds_memory_parameters", mon.contract_evals)
 
 
@@ -690,6 +1031,18 @@ def replay(ctx: Any, witness: dict[str, Any]) -> None:
     mon = Monitor(ctx)
     cj = witness["case"]
     c = Case(cj["cls"], tuple(unhex(cj["args"])), cj.get("kwargs", {}), unhex(cj.get("expect")), {}, cj.get("bad", ""))
+    if "spelling" in witness:
+        # the case carries the arguments as the generators spell them; the witness names the spelling of each parameter
+        c.fields = {}
+        if "method" in witness:
+            loop = asyncio.new_event_loop()
+            try:
+                mon.check_client_spelling(witness["method"], c, loop, dict(witness["spelling"]))
+            finally:
+                loop.close()
+        else:
+            mon.check_spellings(kinds, c, [dict(witness["spelling"])])
+        return
     if "assignments" in witness:
         return  # check_partial witnesses name the constructor arguments and the assignments; re-create by hand
     if "then" in witness and c.expect is not None:
